@@ -148,7 +148,12 @@ class UserAddNode(ActionGroup):
         if pred is not None and succ is not None:
             self.actions.append(DeleteEdge(tracks, (pred, succ)))
         # add predecessor and successor edges
-        self.actions.append(AddNode(tracks, node, attributes, pixels))
+        try:
+            self.actions.append(AddNode(tracks, node, attributes, pixels))
+        except ValueError:
+            # the node itself was refused: restore the edges removed above
+            self._rollback()
+            raise
         if pred is not None:
             self.actions.append(AddEdge(tracks, (pred, node)))
         if succ is not None:
